@@ -313,6 +313,9 @@ def _r5(ctx):
 
 
 def run(ctx):
+    C.require_locals(ctx, ctx.func('ArchSemantics.assign_optimal_throughput'), ['INC', 'port_list', 'indices', 'ports', 'cycles', 'port_sums', 'instr_ports', 'differences', 'max_port_idx', 'min_port_idx', 'kernel', 'instruction_form', 'idx', 'k_tmp'])
+    C.require_locals(ctx, ctx.func('ArchSemantics.assign_tp_lt'), ['instruction_form', 'port_number', 'flags'])
+    C.require_locals(ctx, ctx.func('ArchSemantics._handle_instruction_found'), ['instruction_data', 'instruction_form'])
     _r1(ctx)
     _r1b(ctx)
     P = balancer_parts(ctx)
